@@ -462,4 +462,56 @@ def streamPayload (file : Bytes) (pos objlen : Nat) : Except Err Bytes :=
   | none => .error .psEOF
   | some line => .ok ((file.drop (pos + line.length)).take objlen)
 
+/-! ## The whole `stream` branch (round 6): Length clamp, fallback mode, the `endstream` scan
+
+`streamRead` follows `PDFParser.do_keyword` line by line: `objlen` is `Length` (0 when the key is
+missing or the parser is in fallback mode) clamped to the file (`Gen.Filters.streamClamp`,
+translated); `data` is that many bytes after the keyword line; the `while 1` loop then reads lines
+until one contains `Gen.Filters.ENDSTREAM_MARK` (translated) or the input ends (PSEOF -> break);
+the bytes it passes over are appended to `data` only in fallback mode, and in both modes the parser
+is left (`self.seek(pos + objlen)`) just after them. -/
+
+/-- `bytes.startswith` on lists: is `pat` a prefix of `s`? -/
+def startsWith : Bytes → Bytes → Bool
+  | [], _ => true
+  | _ :: _, [] => false
+  | p :: ps, c :: cs => p == c && startsWith ps cs
+
+/-- `pat in s` / `s.index(pat)`: the index of the first occurrence. -/
+def findSub (pat : Bytes) : Bytes → Option Nat
+  | [] => if startsWith pat [] then some 0 else none
+  | c :: rest =>
+    if startsWith pat (c :: rest) then some 0
+    else match findSub pat rest with
+      | some i => some (i + 1)
+      | none => none
+
+/-- The `while 1` loop of the `stream` branch from the byte after the Length bytes: the bytes
+passed over before the end marker (whole lines, then the part of the marker's line before it). -/
+def scanEndstream : Nat → Bytes → Bytes
+  | 0, _ => []
+  | fuel + 1, s =>
+    match nextline s with
+    | none => []                                            -- PSEOF -> break
+    | some line =>
+      match findSub ENDSTREAM_MARK line with
+      | some i => line.take i
+      | none => line ++ scanEndstream fuel (s.drop line.length)
+
+/-- `objlen` after the clamp; `len = none` is a missing `Length` key (non-strict). -/
+def streamObjlen (fallback : Bool) (len : Option Int) (fileLen start : Nat) : Nat :=
+  (streamClamp (if fallback then 0 else len.getD 0) (Int.ofNat fileLen) (Int.ofNat start)).toNat
+
+/-- `PDFStream.rawdata` and the position the parser is left at, when the keyword `stream` stands
+at `pos`. -/
+def streamRead (fallback : Bool) (file : Bytes) (pos : Nat) (len : Option Int) : Except Err (Bytes × Nat) :=
+  match nextline (file.drop pos) with
+  | none => .error .psEOF
+  | some line =>
+    let start := pos + line.length
+    let objlen := streamObjlen fallback len file.length start
+    let data := (file.drop start).take objlen
+    let skipped := scanEndstream (file.length + 1) (file.drop (start + objlen))
+    .ok (if fallback then data ++ skipped else data, start + objlen + skipped.length)
+
 end PdfVerif.Filters
